@@ -273,9 +273,24 @@ func c13Setup() *c13World {
 	return &c13World{dir: dir}
 }
 
+// the builder compiles in /tmp/<10 hex digits> and leaves the (empty) directory behind: remove those this run made
+func c13Sweep(since time.Time) {
+	ents, _ := os.ReadDir("/tmp")
+	for _, e := range ents {
+		n := e.Name()
+		if !e.IsDir() || len(n) != 10 || strings.Trim(n, "0123456789abcdef") != "" {
+			continue
+		}
+		if fi, err := e.Info(); err == nil && !fi.ModTime().Before(since) {
+			os.Remove("/tmp/" + n) // only if empty
+		}
+	}
+}
+
 func runC13(c *Ctx) {
 	w := c13Setup()
 	defer os.RemoveAll(w.dir)
+	defer c13Sweep(time.Now().Add(-time.Second))
 	if c.Replay != "" {
 		for _, l := range replayLines(c.Replay) {
 			w.line(c, l)
